@@ -64,6 +64,7 @@ def generate(rng, tier):
         yield {"fam": "inner.small", "kind": "inner", "expect": "many_to_many", "lk": lk, "rk": rk,
                "v": rng.randrange(NVARIANTS)}
     yield from jc.scripted_warm("inner", kinds=("inner",), expects=["many_to_many", "one_to_one"])
+    yield from jc.self_joins("inner", kinds=("inner",), expects=["many_to_many", "one_to_many"])
     yield from jc.malformed_stream(rng, ["inner"], 360 if not thorough else 3600, "inner.malformed")
     if not thorough:
         yield from _random(rng, 40000)
